@@ -316,6 +316,7 @@ impl<'tcx> Dumper<'tcx> {
                     let res = tr.qpath_res(qp, f.hir_id);
                     if let Res::Def(dk, did) = res {
                         o.push(("callee", J::s(defpath(tcx, did))));
+                        o.push(("callee_dp", J::s(dp(tcx, did))));
                         o.push(("callee_kind", J::s(format!("{:?}", dk))));
                         if let DefKind::Ctor(..) = dk {
                             o.push(("ctor_of", J::s(defpath(tcx, tcx.parent(did)))));
@@ -333,6 +334,7 @@ impl<'tcx> Dumper<'tcx> {
                                 let rd = inst.def_id();
                                 if rd != did {
                                     o.push(("resolved", J::s(defpath(tcx, rd))));
+                                    o.push(("resolved_dp", J::s(dp(tcx, rd))));
                                 }
                             }
                         }
@@ -346,6 +348,7 @@ impl<'tcx> Dumper<'tcx> {
                 o.push(("m", J::s(seg.ident.name.to_string())));
                 if let Some(did) = tr.type_dependent_def_id(e.hir_id) {
                     o.push(("callee", J::s(defpath(tcx, did))));
+                    o.push(("callee_dp", J::s(dp(tcx, did))));
                     let ga = tr.node_args(e.hir_id);
                     o.push(("targs", J::Arr(ga.iter().map(|a| J::s(format!("{}", a))).collect())));
                     if let Ok(Some(inst)) = ty::Instance::try_resolve(
@@ -357,6 +360,7 @@ impl<'tcx> Dumper<'tcx> {
                         let rd = inst.def_id();
                         if rd != did {
                             o.push(("resolved", J::s(defpath(tcx, rd))));
+                            o.push(("resolved_dp", J::s(dp(tcx, rd))));
                         }
                     }
                 }
